@@ -117,18 +117,31 @@ def onFin (t : Tcb) (s : Seg) : Tcb × Bool :=
     ({ t with peerFin := true, rcvNxt := wadd t.rcvNxt 1, state := stateOnPeerFin t.state }, true)
   else (t, false)
 
+/-- An empty segment (no payload, FIN or SYN) that lies before `rcv_nxt`: an old duplicate — what a
+    zero-window / keepalive probe looks like (`behind != 0 && behind < 2^31`). -/
+def oldDup (t : Tcb) (s : Seg) : Bool :=
+  s.payload.isEmpty && !s.flags.fin && !s.flags.syn && decide (wsub t.rcvNxt s.seq ≠ 0) &&
+    decide (wsub t.rcvNxt s.seq < 2147483648)
+
 /-- `handle_established` on the TCB: ACK, data, FIN. Second component: emit an ACK afterwards. -/
 def handleEstablished (cfg : Cfg) (t : Tcb) (s : Seg) : Tcb × Bool :=
   let t1 := t.onAck cfg.fixSndMax s
   let (t2, a1) := t1.onData cfg.recvCap s
   let (t3, a2) := t2.onFin s
   let occupies := s.payload ≠ [] || s.flags.fin || s.flags.syn
-  (t3, a1 || a2 || (cfg.fixReack && occupies))
+  (t3, a1 || a2 || (cfg.fixReack && occupies) || (cfg.fixPersistProbe && t3.oldDup s))
 
 /-- The pure ACK the kernel emits from a TCB (tcp.rs:378-403, 1040-1065, 227-243). -/
 def ackSeg (recvCap : Nat) (t : Tcb) (srcPort dstPort : Nat) : Seg :=
   { srcPort := srcPort, dstPort := dstPort, seq := t.sndNxt, ack := t.rcvNxt,
     flags := { ack := true }, window := advWindow recvCap t.recvBuf.length, payload := [] }
+
+/-- The ACK `handle_established` answers `s` with: the plain ACK, except that the answer to an old
+    duplicate (repair `fixPersistProbe`) goes out from `snd_max`, so that it can never look like an old
+    duplicate itself. -/
+def replySeg (cfg : Cfg) (t : Tcb) (s : Seg) (srcPort dstPort : Nat) : Seg :=
+  if cfg.fixPersistProbe && t.oldDup s then { t.ackSeg cfg.recvCap srcPort dstPort with seq := t.sndMax }
+  else t.ackSeg cfg.recvCap srcPort dstPort
 
 /-- States in which `segment_all` / `check_retx` treat the socket as transmitting. -/
 def transmittable (t : Tcb) : Bool :=
@@ -145,15 +158,10 @@ def finPending (t : Tcb) : Bool :=
 def persistCandidate (t : Tcb) : Bool :=
   t.transmittable && t.sndWnd == 0 && t.sndUna == t.sndNxt && (!t.sendBuf.isEmpty || t.finPending)
 
-/-- The window probe of `persist_probe`: the first unsent byte, or the FIN, at `snd_nxt`. -/
+/-- The window probe of the persist sweep: empty, one sequence number before `snd_una`. -/
 def probeSeg (recvCap srcPort : Nat) (t : Tcb) : Seg :=
-  { srcPort := srcPort, dstPort := t.peer.port, seq := t.sndNxt, ack := t.rcvNxt,
-    flags := { ack := true, psh := !t.sendBuf.isEmpty, fin := t.sendBuf.isEmpty },
-    window := advWindow recvCap t.recvBuf.length, payload := t.sendBuf.take 1 }
-
-/-- The TCB after a probe went out: the tick counter restarts, `snd_max` covers the probe. -/
-def probed (t : Tcb) : Tcb :=
-  { t with persistTicks := 0, sndMax := if t.sndMax == t.sndUna then wadd t.sndNxt 1 else t.sndMax }
+  { srcPort := srcPort, dstPort := t.peer.port, seq := wsub t.sndUna 1, ack := t.rcvNxt,
+    flags := { ack := true }, window := advWindow recvCap t.recvBuf.length, payload := [] }
 
 /-- `segment_all`'s candidate filter (tcp.rs:1223-1240). -/
 def segCandidate (t : Tcb) : Bool :=
